@@ -150,6 +150,9 @@ class YosysBehavioralRTLIRToVVisitorL1( BehavioralRTLIRToVVisitorL1 ):
         n_zero = nbits - cur_nbits
         return f"{{ {{ {n_zero} {{ 1'b0 }} }}, {value_str} }}"
 
+    # value might be a negative number; sized decimal literals cannot
+    # carry a sign so we emit its two's complement like the Verilog backend
+    value = int(Bits(nbits, value))
     return f"{nbits}'d{value}"
 
   #-----------------------------------------------------------------------
